@@ -49,6 +49,7 @@ def make_types(rng):
     # wider than 32 bits (the 64-bit dataset dtypes; word boundaries of the bit reader)
     add(t_uint(33, tname="U33_T")); add(t_uint(40, tname="U40_T")); add(t_uint(64, tname="U64_T"))
     add(t_uint(64, enc="signed", tname="S64_T")); add(t_uint(48, enc="twosComplement", bo=LSB, tname="S48LE_T"))
+    add(t_uint(72, tname="U72_T"))      # wider than any numpy integer
     add(t_uint(16, bo=LSB, tname="U16LE_T"))
     add(t_uint(8, enc="signed", tname="S8_T"))
     add(t_uint(12, enc="twosComplement", tname="S12_T"))
@@ -94,6 +95,9 @@ def make_types(rng):
                       ["int", "3", S("unsigned"), S(MSB), NOCAL]], 3, en))
     add(PT("BOOL_T", ["pt", S("BOOL_T"), "bool", ["int", "1", S("unsigned"), S(MSB), NOCAL]], 1,
            lambda rng, c=None: rng.choice("01")))
+    # a boolean on a text encoding: true when the buffer is not empty
+    add(PT("BOOLSTR_T", ["pt", S("BOOLSTR_T"), "bool", ["str", S("US-ASCII"), "16", "-", "-", "1", "-", "-", "-", "-"]], 16,
+           lambda rng, c=None: "".join(f"{x:08b}" for x in rng.choice([b"AB", b"ON", b"  "]))))
     # calibrated ints (exact arithmetic): poly default; spline; context
     poly = ["poly", [fnum(Fraction(1, 2)), "0"], [fnum(Fraction(3, 2)), "1"]]
     add(PT("CALP_T", ["pt", S("CALP_T"), "plain", ["int", "8", S("unsigned"), S(MSB), [poly, []]]], 8,
